@@ -359,7 +359,7 @@ func domOf(t reflect.Type, p Opt, depth int) []gen {
 			out = append(out, gen{"&" + e.desc, func() reflect.Value {
 				v := reflect.New(t.Elem())
 				v.Elem().Set(e.mk())
-				return v
+				return v.Convert(t) // t may be a named pointer type
 			}})
 		}
 		return out
